@@ -37,6 +37,10 @@ def universes():
     u["A_del_mal_short"] = dele("A", [ids["a1"][:10]])
     u["A_del_mal_bare"] = make_event("A", 5, 30, [["e"], ["e", ids["a2"]]], "")
     u["A_del_mal_empty"] = dele("A", [""])
+    # an own event exactly one second older than its deletion, and references that carry a relay hint / a marker (NIP-10 style)
+    u["a29"] = make_event("A", 1, 29, [], "a29")
+    u["A_del_a29"] = dele("A", [u["a29"]["id"]])
+    u["A_del_a1a2_hinted"] = make_event("A", 5, 30, [["e", ids["a1"], "wss://relay.example"], ["e", ids["a2"], "", "mention"]], "")
     return {"U8": u}
 
 
